@@ -41,7 +41,8 @@ MARKER_NAMES = ["implementation_version", "platform_python_implementation", "imp
 MARKER_OPS = ["===", "==", ">=", "<=", ">", "<", "!=", "~=", "not in", "in"]
 MARKER_VALUES = ["3.8", "3.8.1", "3", "3.10", "2.7.*", "linux", "win32", "a", "foo-bar", "3.8 3.9", "3.8, 3.9", "3.8|3.9", "", " ",
                  "5.10.0-generic", "x, 'y' IN", "a, 'b' in", "'q' not in", "1.0+local", ">=3.8", "==3.8", "*", "3.8.*", "dev", "a b",
-                 "tegra", "\\", "\\\"", "é", "3.٨", "x||y", "a,b", "!=a", "a, !=b", "<empty>"]
+                 "tegra", "\\", "\\\"", "é", "3.٨", "x||y", "a,b", "!=a", "a, !=b", "<empty>", 'a"b', '"', 'Darwi"n', "a\\", "a\\\\b", "a\\\"'b", "in a",
+                 "a'b", "3.8\\"]
 MARKER_TOKENS = (MARKER_NAMES + MARKER_OPS + [" and ", " or ", "(", ")", " ", "\t", '"', "'", "and", "or", "not", "in", "AND", "OR", "IN",
                                               "NOT IN", ";", ",", "==", "<>", "!", "~", "^", "python_version", "extra", "os_name"]
                  + ['"' + v + '"' for v in MARKER_VALUES[:24]] + ["'" + v + "'" for v in MARKER_VALUES[:12]])
@@ -118,7 +119,9 @@ def valid_marker(rnd: random.Random) -> str:
         return rnd.choice(["", "*", "<empty>"])
     # a leaf over the full name/op/value vocabulary (mostly rejected by SingleMarker.__init__, accepted by the grammar)
     n, o, v = rnd.choice(MARKER_NAMES), rnd.choice(MARKER_OPS), rnd.choice(MARKER_VALUES)
-    qv = ("'" + v + "'") if ("'" not in v and rnd.random() < 0.3) else ('"' + v + '"')
+    # a value holding a double quote (or ending in a backslash) can only be written between single quotes
+    must_single = "'" not in v and ('"' in v or v.endswith("\\"))
+    qv = ("'" + v + "'") if ("'" not in v and (must_single or rnd.random() < 0.3)) else ('"' + v + '"')
     sp = rnd.choice(["", " ", " ", "\t", "  "])
     if rnd.random() < 0.25:
         return f"{qv}{sp}{o}{sp if o not in ('in', 'not in') else ' '}{n}"
@@ -281,7 +284,8 @@ UNIFORM = {
     "vconstraint": [("!=1.%d", ","), ("!=1.%d", ", "), ("1.%d", " || "), ("!=%d.*", ","), (">=1.%d", ",")],
     "generic": [("!=a%d", ","), ("a%d", " || "), ("'a%d' not in", ", ")],
     "marker": [('python_version == "3.%d"', " or "), ('python_version != "3.%d"', " and "), ('os_name == "a%d"', " or "),
-               ('os_name != "a%d"', " and "), ('python_full_version != "3.%d.1"', " and "), ('extra == "e%d"', " or ")],
+               ('os_name != "a%d"', " and "), ('python_full_version != "3.%d.1"', " and "), ('extra == "e%d"', " or "),
+               ('extra != "e%d"', " and "), ("sys_platform != 'a\"%d'", " and ")],
 }
 MAX_CHARS = 12000     # "very long inputs" are about 10^4 characters: chains are cut to this length
 
